@@ -117,3 +117,62 @@ class Env(object):
 def where_of(body):
     sp = body.get("span")
     return "%s:%d (%s)" % (sp["file"], sp["line"], body["path"]) if sp else body["path"]
+
+
+# ----------------------------------------------------------------------------------------------
+# calling a method/impl body with table operands chosen from its signature
+# ----------------------------------------------------------------------------------------------
+def is_table_ty(ty, adt):
+    return ty["k"] == "adt" and ty["path"] == adt
+
+
+def call_with_tables(env, kind, body, n, names, extra=None, wellformed=True):
+    """Build one symbolic table per table-typed parameter (by value or by reference, from the
+    signature), call the body, return (interp, outcomes, operand info).  `extra` supplies values for
+    the remaining (non-table) parameters in order."""
+    K = env.kinds[kind]
+    it = env.interp()
+    st = State()
+    args = []
+    ops = []
+    extra = list(extra or [])
+    ni = 0
+    for ty in body["sig"]["inputs"]:
+        if is_table_ty(ty, K.adt):
+            v = K.mk(st, n, sym_words(n, names[ni], wellformed))
+            ops.append(dict(name=names[ni], by="value", ptr=None))
+            args.append(v)
+            ni += 1
+        elif ty["k"] == "ref" and is_table_ty(ty["t"], K.adt):
+            v = K.mk(st, n, sym_words(n, names[ni], wellformed))
+            p = K.place(st, v)
+            ops.append(dict(name=names[ni], by="mut" if ty["mut"] else "ref", ptr=p))
+            args.append(p)
+            ni += 1
+        else:
+            args.append(extra.pop(0))
+    outs = it.call_body(body, args, st, K.env(n))
+    return it, outs, ops
+
+
+def table_bits(env, kind, it, st, v, n):
+    K = env.kinds[kind]
+    return bits_of_table(K.words(it, st, v), n)
+
+
+def check_table_value(env, kind, it, st, v, n, exp):
+    """value is a table of the right type, size and number of variables, with the expected bits"""
+    K = env.kinds[kind]
+    try:
+        words = K.words(it, st, v)
+    except Undecided as e:
+        return UNDECIDED, e.cause
+    if len(words) != table_words(n):
+        return REFUTED, "result has %d blocks, expected %d" % (len(words), table_words(n))
+    nv = K.num_vars_of(v)
+    if nv is not None:
+        if nv.val is None:
+            return UNDECIDED, "symbolic num_vars"
+        if nv.val != n:
+            return REFUTED, "result has num_vars=%d, expected %d" % (nv.val, n)
+    return compare_bits(bits_of_table(words, n), exp)
